@@ -172,14 +172,15 @@ def _local_call(node):
     decl = H.declared_callee(node) or ""
     if decl.startswith("gamedig::socket::Socket::"):
         fn = decl  # the socket type is a feature-dependent alias (plain or capturing wrapper): name the trait method
-    if not fn.startswith("gamedig::") or fn.startswith(("gamedig::buffer::", "gamedig::errors::")) or node[1].get("ctor"):
+    local_pre = (_CRATE[0].name + "::") if _CRATE[0] is not None else "gamedig::"
+    if not (fn.startswith("gamedig::") or fn.startswith(local_pre)) or fn.startswith(("gamedig::buffer::", "gamedig::errors::")) or node[1].get("ctor"):
         return None
     if fn.endswith(("::context", "::into", "::from")):
         return None
     ga = [_short_ty(x) for x in (node[1].get("inst_gargs") or []) if not x.startswith("'")]
     if decl.startswith("gamedig::socket::Socket::"):
         ga = []
-    return "call %s%s" % (fn.split("gamedig::")[-1], "<" + ",".join(ga) + ">" if ga else "")
+    return "call %s%s" % (fn.split("gamedig::")[-1] if fn.startswith("gamedig::") else fn, "<" + ",".join(ga) + ">" if ga else "")
 
 
 def extract(f, calls=False):
@@ -496,9 +497,9 @@ def _stable_paths(s):
         p = m.group(0)
         parts = p.split("::")
         for i in range(len(parts), 1, -1):
-            f2 = c.fn("gamedig::" + "::".join(parts[:i])) or c.fn("::".join(parts[:i]))
+            f2 = c.fn(c.name + "::" + "::".join(parts[:i])) or c.fn("::".join(parts[:i]))
             if f2 is not None:
-                d = S_.fn_display(f2).split("gamedig::", 1)[-1]
+                d = S_.fn_display(f2).split(c.name + "::", 1)[-1]
                 if "{impl#" not in d:
                     return d + ("::" + "::".join(parts[i:]) if parts[i:] else "")
         return re.sub(r"\{impl#\d+\}", "{impl}", p)
